@@ -59,11 +59,11 @@ ProbesFor(U) == U \cup {k \o <<0>> : k \in U} \cup {<<>>, <<255>>}
 Strs26 == ProbesFor(U26)
 \* SeqLess tabulated once over the strings that occur (TLC evaluates constants once; a table lookup is ~100 times
 \* cheaper than SeqLess).  OrdTableOk ties the table to SeqLess.
-OrdU == [s \in Strs26 |-> Cardinality({t \in Strs26 : SeqLess(t, s)})]
+OrdU == TLCEval([s \in Strs26 |-> Cardinality({t \in Strs26 : SeqLess(t, s)})])   \* TLCEval: tabulate now, not at every application
 LtU(x, y) == OrdU[x] < OrdU[y]
 OrdTableOk == \A x, y \in Strs26 : LtU(x, y) <=> SeqLess(x, y)
-ProbeSeq26 == SortKeys(Strs26)
-UOrder26 == SortKeys(U26)
+ProbeSeq26 == TLCEval(SortKeys(Strs26))
+UOrder26 == TLCEval(SortKeys(U26))
 
 \* keys: a sorted sequence of universe keys
 Case(keys) == [keys |-> keys, probes |-> [i \in DOMAIN ProbeSeq26 |-> [p |-> ProbeSeq26[i], r |-> SearchL(LtU, keys, ProbeSeq26[i])]]]
